@@ -2,6 +2,7 @@
 import itertools
 import json
 import os
+import posixpath
 import re
 
 from .. import core
@@ -176,7 +177,7 @@ def verdict_of(sec_lines, name):
 
 def judge_run(tp, names, order, truths, res, files, argv=None, alone_ref=None):
     ev = core.run_cli(["test"] + (argv or list(order)), tp.root, timeout=60.0, merge=True)
-    witness = {"files": files, "order": list(order), "argv": argv or list(order)}
+    witness = {"files": files, "order": list(order), "argv": argv or list(order), "truths": truths}
     if ev.get("hang") or ev["signal"] or ev["exit"] not in (0, 1):
         res.violation(["test-run-crash-or-hang"], witness, {"exit": ev["exit"], "signal": ev["signal"], "output": ev["stdout"][-400:]})
         return None
@@ -256,6 +257,59 @@ def judge_run(tp, names, order, truths, res, files, argv=None, alone_ref=None):
     return out
 
 
+PASSING_EXTRA = "assert {ok = true, desc = \"%s\"};\n"
+
+
+def judge_tree(r, files, names, truths, res, layout=None):
+    """`ucg test -r <dir>` over a directory TREE: the files are spread over nested directories, next to directories that
+    hold only passing files or no test file at all.  The order in which a directory is listed is not ours to choose, so
+    every tree is run together with its mirror image (the directory names swapped).  Judged: every test file validated
+    exactly once, its verdict line, and exit status 1 iff some file of the tree fails."""
+    dirs = ["", "a_sub", "z_sub", "a_sub/deep", "m_sub", "z_sub/deep"]
+    if layout is None:
+        layout = {n: r.choice(dirs) for n in names}
+    mirror = {"a_sub": "z_sub", "z_sub": "a_sub", "a_sub/deep": "z_sub/deep", "z_sub/deep": "a_sub/deep", "m_sub": "m_sub", "": ""}
+    for variant, place in (("tree", layout), ("mirror", {n: mirror[d] for n, d in layout.items()})):
+        with core.TempProject("c13t") as tp:
+            expected = {}
+            for n, d in place.items():
+                tp.write(posixpath.join("tree", d, n), files[n])
+                tp.write(posixpath.join("tree", d, "helper.ucg"), files["helper.ucg"])
+                expected[n] = truths[n]["pass"]
+            # directories with only passing files, and one without any test file
+            for k, d in enumerate(["a_sub/only_passing", "z_sub/only_passing", "zz_last", "aa_first"]):
+                pn = "p%d_test.ucg" % k
+                tp.write(posixpath.join("tree", d, pn), PASSING_EXTRA % ("p%d" % k))
+                expected[pn] = True
+            tp.write("tree/m_sub/no_tests_here/readme.ucg", "let x = 1;\n")
+            for argv, cwd in ((["test", "-r", "tree"], tp.root), (["test", "-r", "."], tp.path("tree"))):
+                ev = core.run_cli(argv, cwd, timeout=90.0, merge=True)
+                witness = {"files": files, "layout": layout, "argv": argv, "variant": variant, "truths": truths}
+                res.case((json.dumps(files, sort_keys=True), json.dumps(place, sort_keys=True), tuple(argv)), nontrivial=True)
+                if ev.get("hang") or ev["signal"] or ev["exit"] not in (0, 1):
+                    res.violation(["test-run-crash-or-hang"], witness, {"exit": ev["exit"], "signal": ev["signal"], "output": ev["stdout"][-400:]})
+                    return
+                validated = [os.path.basename(m.group(1)) for m in re.finditer(r"(?m)^Validating (\S+)$", ev["stdout"])]
+                validated = [v for v in validated if v in expected]
+                if sorted(validated) != sorted(expected):
+                    res.violation(["recursive-run-misses-or-repeats-files", "tree"], witness, {"validated": sorted(validated), "expected": sorted(expected)})
+                    return
+                verdicts = {}
+                for m in re.finditer(r"(?m)^(\S+) - (PASS|FAIL)$", ev["stdout"]):
+                    verdicts.setdefault(os.path.basename(m.group(1)), []).append(m.group(2))
+                wrong = [n for n, ok in expected.items() if verdicts.get(n) != [("PASS" if ok else "FAIL")]]
+                if wrong:
+                    res.violation(["wrong-verdict", "tree", "reported-%s" % (verdicts.get(wrong[0]) or ["none"])[0]], witness,
+                                  {"file": wrong[0], "expected_pass": expected[wrong[0]], "verdict_lines": verdicts.get(wrong[0])})
+                    return
+                any_fail = not all(expected.values())
+                if (ev["exit"] != 0) != any_fail:
+                    res.violation(["exit-status", "exit-%s" % ev["exit"], "tree"], witness,
+                                  {"failing": sorted(n for n, ok in expected.items() if not ok), "output": ev["stdout"][-300:]})
+                    return
+                res.count("tree-runs-ok")
+
+
 def task(args):
     seed, idx, count = args
     r = core.rng_for(seed, "c13", idx)
@@ -298,6 +352,8 @@ def task(args):
                 else:
                     res.violation(["recursive-run-misses-or-repeats-files"], {"files": files, "order": seen_order, "argv": ["-r", "."]},
                                   {"validated": seen_order, "expected": names})
+            if r.random() < 0.5:
+                judge_tree(r, files, names, truths, res)
         if c < 1 and idx < 2:
             res.sample({"files": files, "truth": truths})
     return res
@@ -346,6 +402,16 @@ def check_witness(w):
     res = core.Result()
     files = w["files"]
     names = sorted(n for n in files if n.endswith("_test.ucg"))
+    if w.get("truths"):
+        truths = w["truths"]
+        if w.get("layout"):
+            judge_tree(None, files, names, truths, res, layout=w["layout"])
+            return res
+        with core.TempProject("c13r") as tp:
+            for n, t in files.items():
+                tp.write(n, t)
+            judge_run(tp, names, tuple(w["order"]), truths, res, files, argv=w.get("argv") if w.get("argv") != w["order"] else None)
+        return res
     truths = {n: truth_from_text(files[n]) for n in names}
     if "helper.ucg" in files:
         ht = truth_from_text(files["helper.ucg"].replace("not_a_test == 1", "true").replace("not_a_test > 1", "false"))
